@@ -4,8 +4,10 @@ import iongen
 import binlib
 import cursor
 
-THEOREMS = []
+import textreader_k5
+THEOREMS = ["tr_skip_container_frame", "tr_progress_skip_container", "tr_next_spec"]
 LEVEL = "other"
+TRUSTED_EXTRA = getattr(textreader_k5, "TRUSTED_EXTRA", [])
 EXPLANATION = ("valid binary documents (spec-derived encoder with representation freedom) x navigation programs over "
                "{Next, StepIn, StepOut, Type, IsNull, IsInStruct, FieldName, Annotations, Err, every accessor} including "
                "refused calls, checked against a reference cursor over the document's value tree (lib/cursor.py); K2 ties "
@@ -32,3 +34,11 @@ def run(ctx):
         else:
             ok += 1
     ctx.count("C08-binary", len(lines), [], agree=ok, sample={"program": lines[7][:200], "trace": exp[7][:200]})
+
+
+_run_binary = run
+
+
+def run(ctx):
+    _run_binary(ctx)
+    textreader_k5.run(ctx)    # text: K5 (model vs real reader) on traversals and navigation programs, skip vs read documents
